@@ -10,9 +10,22 @@
 //       released together by a barrier, call threadId() repeatedly during their whole life and
 //       record every returned value.  One {"e":"Obs",...} record per thread.
 //
+// Translation units.  The property is about the thread, not about the .cpp file a call is compiled
+// in, and thread_id.h is free to put code and data into every includer (inline fast paths, statics):
+// a per-thread cache that is private to a translation unit is perfectly stable and unique within any
+// single-file harness and wrong for every real program.  So every thread of both modes calls
+// threadId() alternately from THIS unit and from drv_threadid_tu2.cpp (which unit goes first varies
+// per thread), and all values go into the same per-thread sequence that the spec requires to be
+// constant ("via" names the unit of each call: 1 = this file, 2 = drv_threadid_tu2.cpp).  Observation
+// mode also exercises the header-only user of threadId(), DistributedRWLock's sub-lock choice, across
+// the two units on thread-private locks: lock_shared() compiled in one unit, unlock_shared() compiled
+// in the other ("slots" = the sub-lock held after lock_shared() from unit 1 / from unit 2, "left" =
+// number of sub-lock words that are not 0 after the unlock_shared() from the other unit).
+//
 // Identifiers are logged relative to the value of the process-global counter at the Reset line in
 // controlled mode (the counter cannot be reset), and as absolute small integers in observation mode
 // (uniqueness is process-wide there).
+#include <dispenso/distributed_rw_lock.h>
 #include <dispenso/thread_id.h>
 
 #include <sched.h>
@@ -23,6 +36,7 @@
 
 #include "../ctl/ctl.h"
 #include "../ctl/drv_common.h"
+#include "drv_threadid_tu2.h"
 
 namespace dispenso {
 extern std::atomic<uint64_t> nextThread; // defined in thread_id.cpp
@@ -30,6 +44,11 @@ extern std::atomic<uint64_t> nextThread; // defined in thread_id.cpp
 
 using ctl::Json;
 using Program = std::vector<std::pair<std::string, int>>;
+
+// threadId() as seen from translation unit `unit` (1 = this file, 2 = drv_threadid_tu2.cpp)
+static inline uint64_t threadIdVia(int unit) {
+  return unit == 1 ? dispenso::threadId() : tidtu2::threadId();
+}
 
 static Program parseProg(const std::string& s) {
   Program p;
@@ -64,11 +83,15 @@ execute(const Program& prog, const ctl::RunOptions& opts, ctl::Trace& tr, const 
   ctl::Controller& c = *cp;
   c.setProjection(
       [base](Json& j) { j.kv("next", (long long)dispenso::nextThread.load() - base); });
+  int tix = 0;
   for (auto& th : prog) {
     int calls = th.second;
-    c.addThread(th.first, [calls, base]() {
+    // consecutive calls of a thread come from alternating translation units; which unit makes the
+    // thread's first call (the one that claims the identifier) alternates from thread to thread
+    int first = tix++ % 2;
+    c.addThread(th.first, [calls, base, first]() {
       for (int i = 0; i < calls; ++i) {
-        uint64_t id = dispenso::threadId();
+        uint64_t id = threadIdVia(1 + (first + i) % 2);
         ctl::ret((long long)id - base);
       }
     });
@@ -89,6 +112,27 @@ static Program randomProgram(uint64_t& rng) {
 }
 
 // ------------------------------------------------------------------------------- observation mode
+// index of the one sub-lock that is read-held exactly once (all others free); -1 otherwise
+static long long heldSlot(tidtu2::Lock& l) {
+  long long at = -1;
+  for (size_t i = 0; i < 16; ++i) {
+    int w = l.impl_.slots_[i].lockWord().load(std::memory_order_acquire);
+    if (w == 0)
+      continue;
+    if (w != 1 || at >= 0)
+      return -1;
+    at = (long long)i;
+  }
+  return at;
+}
+// number of sub-lock words that are not 0 (a free lock has none)
+static long long busySlots(tidtu2::Lock& l) {
+  long long n = 0;
+  for (size_t i = 0; i < 16; ++i)
+    n += l.impl_.slots_[i].lockWord().load(std::memory_order_acquire) != 0;
+  return n;
+}
+
 static int runObs(const drv::Args& a) {
   ctl::Trace tr(a.str("out", "obs.ndjson"));
   tr.line("{\"e\":\"Reset\"}");
@@ -109,12 +153,15 @@ static int runObs(const drv::Args& a) {
   for (int s = 0; s < sweeps; ++s) {
     for (size_t si = 0; si < sizes.size(); ++si, ++round) {
       const int n = sizes[si];
-      std::vector<std::vector<long long>> ids((size_t)n);
+      std::vector<std::vector<long long>> ids((size_t)n), via((size_t)n), slots((size_t)n), left((size_t)n);
       std::atomic<int> arrived{0}, phase2{0};
       std::vector<std::thread> ths;
       std::vector<int> extra((size_t)n);
-      for (int i = 0; i < n; ++i)
+      std::vector<unsigned> units((size_t)n); // bit k = translation unit (0: this, 1: tu2) of call k
+      for (int i = 0; i < n; ++i) {
         extra[(size_t)i] = (int)(ctl::splitmix(rng) % 4);
+        units[(size_t)i] = (unsigned)(ctl::splitmix(rng) & 0xff);
+      }
       for (int i = 0; i < n; ++i) {
         ths.emplace_back([&, i]() {
           // barrier: all threads of the round make their first call at the same moment
@@ -125,16 +172,39 @@ static int runObs(const drv::Args& a) {
               sched_yield();
           }
           auto& mine = ids[(size_t)i];
-          mine.push_back((long long)dispenso::threadId());
+          auto& unitOf = via[(size_t)i];
+          const unsigned u = units[(size_t)i];
+          auto call = [&](int unit) {
+            mine.push_back((long long)threadIdVia(unit));
+            unitOf.push_back(unit);
+          };
+          const int firstUnit = 1 + (int)(u & 1);
+          call(firstUnit);
           for (int k = 0; k < extra[(size_t)i]; ++k)
-            mine.push_back((long long)dispenso::threadId());
+            call(1 + (int)((u >> (k + 1)) & 1));
           // second phase: every thread of the round has an identifier by now
           phase2.fetch_add(1, std::memory_order_acq_rel);
           while (phase2.load(std::memory_order_acquire) < n)
             sched_yield();
-          mine.push_back((long long)dispenso::threadId());
+          call(3 - firstUnit); // every thread is observed from both units
           sched_yield();
-          mine.push_back((long long)dispenso::threadId());
+          call(firstUnit);
+          // header-only user of threadId(): the reader path of DistributedRWLock picks its sub-lock
+          // with threadId() in lock_shared() AND in unlock_shared(); the two calls of one critical
+          // section may be compiled in different units (thread-private locks: only this thread's
+          // own operations are observed)
+          {
+            tidtu2::Lock a, b;
+            a.lock_shared(); // unit 1
+            slots[(size_t)i].push_back(heldSlot(a));
+            tidtu2::unlockShared(a); // unit 2
+            left[(size_t)i].push_back(busySlots(a));
+            tidtu2::lockShared(b); // unit 2
+            slots[(size_t)i].push_back(heldSlot(b));
+            b.unlock_shared(); // unit 1
+            left[(size_t)i].push_back(busySlots(b));
+          }
+          call(3 - firstUnit);
         });
       }
       for (auto& t : ths)
@@ -147,6 +217,9 @@ static int runObs(const drv::Args& a) {
         j.kv("n", (long long)n);
         j.kv("k", (long long)(i + 1));
         j.arr("ids", ids[(size_t)i].begin(), ids[(size_t)i].end());
+        j.arr("via", via[(size_t)i].begin(), via[(size_t)i].end());
+        j.arr("slots", slots[(size_t)i].begin(), slots[(size_t)i].end());
+        j.arr("left", left[(size_t)i].begin(), left[(size_t)i].end());
         j.endObj();
         tr.line(j.s);
         ++records;
